@@ -658,6 +658,7 @@ parse_transport_fast(struct __sk_buff *skb, __u32 link_h_len,
 			tcph->doff = tcph_ptr->doff;
 			tcph->rst = tcph_ptr->rst;
 			tcph->syn = tcph_ptr->syn;
+			tcph->ack = tcph_ptr->ack;
 			tcph->fin = tcph_ptr->fin;
 			tcph->window = tcph_ptr->window;
 			*listener_l4proto = tcp_listener_l4proto(tcph_ptr);
@@ -759,6 +760,7 @@ parse_transport_fast(struct __sk_buff *skb, __u32 link_h_len,
 			tcph->doff = tcph_ptr->doff;
 			tcph->rst = tcph_ptr->rst;
 			tcph->syn = tcph_ptr->syn;
+			tcph->ack = tcph_ptr->ack;
 			tcph->fin = tcph_ptr->fin;
 			tcph->window = tcph_ptr->window;
 			*listener_l4proto = tcp_listener_l4proto(tcph_ptr);
